@@ -121,6 +121,50 @@ func main() {
 			}
 		}
 		os.Exit(0)
+	case "loops":
+		// survey: every loop of every function under contract, with its kind (range loops terminate by construction)
+		cs, _ := LoadContracts(*repo)
+		prog, pkgs, err := loadProgram(*repo, nil)
+		if err != nil {
+			fmt.Println(err)
+			os.Exit(2)
+		}
+		v := &Verifier{prog: prog, pkgs: pkgs, cs: cs}
+		seen := map[string]bool{}
+		for _, k := range cs.Order {
+			c := cs.Funcs[k]
+			key := c.Pkg + "." + c.Key
+			if i := strings.Index(key, "#"); i >= 0 {
+				key = key[:i]
+			}
+			if seen[key] || c.Trusted {
+				continue
+			}
+			seen[key] = true
+			fn := v.findFunc(key)
+			if fn == nil {
+				continue
+			}
+			fns := append([]*ssa.Function{fn}, fn.AnonFuncs...)
+			if callsItself(fn) {
+				fmt.Printf("%s recursive\n", key)
+			}
+			for _, f := range fns {
+				body := bodyOf(f)
+				for _, li := range findLoops(body) {
+					d := ""
+					if ls := c.Loops[li.ord]; ls != nil && f == fn {
+						if ls.Unreach {
+							d = "unreachable_backedge"
+						} else if len(ls.Decr) > 0 {
+							d = "decreases"
+						}
+					}
+					fmt.Printf("%s %s loop %d kind=%s %s\n", key, f.Name(), li.ord, loopKind(li), d)
+				}
+			}
+		}
+		os.Exit(0)
 	case "names":
 		prog, pkgs, err := loadProgram(*repo, nil)
 		if err != nil {
@@ -262,6 +306,11 @@ func runCheck(prop, repo, verifDir, tier, only string, workers int, verbose, noE
 		}
 	}
 	rep := buildReport(prop, tier, runs, results, cs, time.Since(t0).Seconds(), loadSecs, genSecs, verifDir, verbose)
+	term, termAssume := terminationSummary(v, cs, keys, pairs)
+	rep.evidence["coverage"].(map[string]interface{})["termination"] = term
+	if as, ok := rep.evidence["assumptions"].([]string); ok && len(as) > 0 {
+		as[0] = termAssume
+	}
 	if len(boundedNotes) > 0 {
 		cov := rep.evidence["coverage"].(map[string]interface{})
 		cov["bounded_standins"] = boundedNotes
@@ -496,7 +545,7 @@ func buildReport(prop, tier string, runs []*FuncRun, results []*Result, cs *Cont
 			"samples":                  samples,
 			"engine_notes":             nl,
 		},
-		"assumptions": append(assumptionList(prop), cs.Scan...),
+		"assumptions": append(assumptionList(prop), relevantScan(cs.Scan, runs, callees)...),
 	}
 	rep.evidence = ev
 	return rep
@@ -583,9 +632,152 @@ func (k *knownFindings) match(prop, base string) (string, bool) {
 	return "", false
 }
 
+// terminationSummary: what the check establishes about termination of the functions under contract. `for` loops carry a
+// proved variant (obligation decreases[loopN]) or a proved-unreachable back edge; range loops over slices, integers and
+// maps terminate by Go's semantics; directly recursive functions carry a proved measure (obligation call-decreases).
+// Everything else is listed as not shown to terminate.
+func terminationSummary(v *Verifier, cs *ContractSet, keys []string, pairs []Pair) (map[string]interface{}, string) {
+	variant, unreach, byRange, measured := 0, 0, 0, 0
+	var missing []string
+	var relative []string
+	for _, p := range pairs {
+		if fn := v.findFunc(p.Fork); fn != nil {
+			for _, li := range findLoops(bodyOf(fn)) {
+				relative = append(relative, fmt.Sprintf("%s: loop %d", p.Fork, li.ord))
+			}
+		}
+	}
+	sort.Strings(relative)
+	seen := map[string]bool{}
+	for _, k := range keys {
+		c := cs.Funcs[k]
+		base := k
+		if i := strings.Index(base, "#"); i >= 0 {
+			base = base[:i]
+		}
+		if seen[base] {
+			continue
+		}
+		seen[base] = true
+		fn := v.findFunc(k)
+		if fn == nil {
+			continue
+		}
+		if callsItself(fn) {
+			if len(c.Decr) > 0 {
+				measured++
+			} else {
+				missing = append(missing, base+": direct recursion without a measure")
+			}
+		}
+		for _, f := range append([]*ssa.Function{fn}, fn.AnonFuncs...) {
+			for _, li := range findLoops(bodyOf(f)) {
+				switch loopKind(li) {
+				case "range-index", "range-iter":
+					byRange++
+					continue
+				}
+				ls := c.Loops[li.ord]
+				switch {
+				case f == fn && ls != nil && ls.Unreach:
+					unreach++
+				case f == fn && ls != nil && len(ls.Decr) > 0:
+					variant++
+				default:
+					missing = append(missing, fmt.Sprintf("%s: loop %d (%s) of %s without a variant", base, li.ord, loopKind(li), f.Name()))
+				}
+			}
+		}
+	}
+	sort.Strings(missing)
+	m := map[string]interface{}{
+		"for_loops_with_proved_variant":              variant,
+		"loops_with_proved_unreachable_back_edge":    unreach,
+		"range_loops_terminating_by_go_semantics":    byRange,
+		"recursive_functions_with_proved_measure":    measured,
+		"not_shown_to_terminate":                     missing,
+		"relative_termination_only":                  relative,
+		"relative_termination_note":                  "loops of a fork/original pair are executed in lockstep (same number of iterations proved by the equivalence obligations): the fork terminates exactly when the standard library original does",
+		"note": "blocking operations (locks, channel operations, WaitGroup.Wait), callbacks and callees without a body under contract are not shown to terminate",
+	}
+	as := fmt.Sprintf("termination: %d for-loop variants and %d recursion measures proved, %d back edges proved unreachable, %d range loops terminate by Go's semantics; not shown to terminate: %d loops/recursions of the functions under contract, plus blocking operations, callbacks and callees without a verified body", variant, measured, unreach, byRange, len(missing))
+	return m, as
+}
+
+// relevantScan keeps the scanned assumptions (axioms, trusted contracts, declared-unreachable back edges) that the
+// functions checked for this property can actually use: axioms of their own packages and of their callees' packages,
+// trusted contracts of functions they call.
+func relevantScan(scan []string, runs []*FuncRun, callees map[string]bool) []string {
+	pkgs := map[string]bool{}
+	keys := map[string]bool{}
+	pkgOf := func(name string) string {
+		if i := strings.Index(name, "."); i > 0 {
+			return name[:i]
+		}
+		return name
+	}
+	for _, r := range runs {
+		k := r.Key
+		if i := strings.Index(k, "#"); i >= 0 {
+			k = k[:i]
+		}
+		if i := strings.Index(k, "~"); i >= 0 {
+			k = k[:i]
+		}
+		keys[k] = true
+		pkgs[pkgOf(k)] = true
+	}
+	for c := range callees {
+		pkgs[pkgOf(c)] = true
+	}
+	var out []string
+	for _, s := range scan {
+		i := strings.Index(s, ": ")
+		if i < 0 {
+			out = append(out, s)
+			continue
+		}
+		head, rest := s[:i], s[i+2:]
+		switch {
+		case strings.HasPrefix(rest, "axiom "):
+			if pkgs[head] {
+				out = append(out, s)
+			}
+		case strings.HasPrefix(rest, "contract TRUSTED"):
+			if callees[head] || keys[head] {
+				out = append(out, s)
+			}
+		case strings.HasPrefix(rest, "loop "):
+			if keys[head] {
+				out = append(out, s)
+			}
+		default:
+			out = append(out, s)
+		}
+	}
+	return out
+}
+
+// callsItself: direct recursion (a static call of the function, or of another instance of the same generic function).
+func callsItself(fn *ssa.Function) bool {
+	body := bodyOf(fn)
+	for _, b := range body.Blocks {
+		for _, in := range b.Instrs {
+			if c, ok := in.(ssa.CallInstruction); ok {
+				if cal := c.Common().StaticCallee(); cal != nil {
+					if cal == fn || cal == body || (cal.Origin() != nil && (cal.Origin() == fn.Origin() || cal.Origin() == fn)) || (fn.Origin() != nil && cal == fn.Origin()) {
+						return true
+					}
+				}
+			}
+		}
+	}
+	return false
+}
+
 func assumptionList(prop string) []string {
 	return []string{
-		"partial correctness only: termination is not verified",
+		"termination: see coverage.termination",
 		"integers outside the root package are mathematical (no overflow); in package typ they are bit-vectors of their exact width (int/uint/uintptr = 64 bit)",
 		"callbacks are pure, deterministic, total and non-nil unless stated",
 		"the go/ssa translation of x/tools and this engine's semantics of the SSA subset are trusted",
